@@ -1,4 +1,4 @@
-import J5V.Schema.CodecBridge
+import J5V.Schema.CodecEmpty
 import J5V.Schema.Export
 import J5V.Generated.SchemaFacts
 /-!
@@ -473,6 +473,22 @@ theorem C18_reflected_decode_no_panic (ds : DescSet) (reg : Reg) (h : schemaSetF
 
 example : (Bridge.toEnv flattenChain flattenChainReg).itemsOk = true :=
   C18_reflected_itemsOk _ _ flattenChain_reflects
+
+/-- **The codec encodes and decodes the empty message of every reflected object** — on the codec
+cluster's model, with the env rendered from the reflected registry: `ProtoToJSON` of the empty
+message is `{}`, `JSONToProto` of `{}` is the empty message. Hypothesis `nameInj`: the def names
+`package.Name` of the registry are pairwise distinct (true of real schema names, which contain no
+dot; decidable). -/
+theorem C18_empty_message (ds : DescSet) (hl : linked ds = true) (reg : Reg)
+    (h : schemaSetFromFiles ds = .ok reg) (hinj : Bridge.nameInj reg = true) (e : REntry)
+    (he : e ∈ reg) (p k : String) (en : Option (String × Int)) (am : List String) (ps : List RProp)
+    (hto : e.to = some (.object p k en am ps)) (O : Codec.Oracle) (c : Codec.Cfg)
+    (hc : c.env = Bridge.toEnv ds reg) :
+    Codec.encodeBytes (Bridge.toEnv ds reg) O (Bridge.rootName e.pkg e.key) (.msg []) = .ok (Json.ascii "{}") ∧
+    Codec.decodeBytes c (Bridge.rootName e.pkg e.key) (Json.ascii "{}") = .ok [] :=
+  Bridge.reflected_empty_message ds hl reg h hinj e he p k en am ps hto O c hc
+
+example : Bridge.nameInj flattenChainReg = true := by decide +kernel
 
 /-! ## Non-vacuity -/
 
